@@ -79,7 +79,7 @@ pub(crate) fn tokenize(
 }
 
 // the canonical form of a file name, if the file exists. Otherwise the name is used as it is
-fn canonical_name(name: &std::ffi::OsStr) -> std::ffi::OsString {
+pub(crate) fn canonical_name(name: &std::ffi::OsStr) -> std::ffi::OsString {
     std::fs::canonicalize(name).map_or_else(|_| name.to_os_string(), std::ffi::OsString::from)
 }
 
